@@ -100,6 +100,10 @@ def index (s sub : Str) : Int :=
   | some n => (n : Int)
   | none => -1
 
+/-- a write through a pointer (`p.F = v`): a nil pointer panics -/
+def derefNil {α : Type} (isNil : Bool) (v : α) : M α :=
+  if isNil then .error "invalid memory address or nil pointer dereference" else .ok v
+
 /-- `len(x)` -/
 def len {α : Type} (l : List α) : Int := (l.length : Int)
 
